@@ -131,75 +131,102 @@ def check_C01(ctx, unit):
             ctx.inst("E.frame-lookup", "%s::%s%s" % (POOL, name, tag), same and ok_align, bn[name][0].loc,
                      "look-up %s; alignment used by look-ups %s, by the constructors %s" % (shapes[name], sorted(aligns), sorted(calign, key=str)),
                      bn[name][0])
-        # carving
+        # carving (all roles are bound structurally, never by local name)
         for f in bn.get("_construct_slab", []):
             inits = RA.local_inits(f)
             problems = []
-            ov = [d for d, i in inits.items() if _name_of(f, d) == "overhead"]
-            item = [d for d, i in inits.items() if _name_of(f, d) == "item_size"]
-            if not ov or not item:
-                raise AnalysisBroken("anchor vanished: overhead/item_size locals of _construct_slab")
-            ov, item = ov[0], item[0]
             idxp = [p["d"] for p in f.params()]
-            ii = std_unwrap(inits[item])
-            if not (ii.is_call() and ii.callee and ii.callee["n"] == "bucket_to_size" and ii.args
-                    and std_unwrap(ii.args[0]).kind == "DeclRefExpr" and std_unwrap(ii.args[0]).d["d"] in idxp):
-                problems.append("item size is %s, not bucket_to_size(index)" % canon(ii))
-            if inits[ov].strip().cv() != 0:
-                problems.append("overhead starts at %s, not 0 (it must stay a multiple of the item size)" % canon(inits[ov]))
-            for x in f.all_nodes():
-                if x.kind in ("CompoundAssignOperator", "BinaryOperator", "UnaryOperator") and x.get("op") in ("+=", "-=", "=", "++", "--", "*="):
-                    l = x.children[0].strip()
-                    if l.kind == "DeclRefExpr" and l.d["d"] == ov:
-                        r = x.children[1].strip() if len(x.children) > 1 else None
-                        if not (x.op == "+=" and r is not None and r.kind == "DeclRefExpr" and r.d["d"] == item):
-                            problems.append("overhead modified by %s at %s" % (canon(x), x.loc))
-            hdr_loop = False
-            for blk in f.blocks.values():
-                if blk.termkind == "WhileStmt" and blk.cond is not None:
-                    c = f.node(blk.cond).strip()
-                    if c.kind == "BinaryOperator" and c.op == "<" and c.children[0].strip().kind == "DeclRefExpr" \
-                            and c.children[0].strip().d["d"] == ov and c.children[1].strip().cv() is not None:
-                        hdr_loop = True
-            if not hdr_loop:
-                problems.append("no loop growing overhead until it covers sizeof(slab_frame)")
             news = [n for n in f.events() if n.kind == "CXXNewExpr" and n.get("placement")]
             fr = [n for n in news if (n.get("allocrt") or "").endswith("::slab_frame")]
-            if len(fr) != 1:
-                problems.append("expected one slab_frame placement, found %d" % len(fr))
-            else:
-                ce = fr[0].child("init")
-                ce = ce.strip() if ce is not None else None
-                a = ce.args if ce is not None else []
-                slabsize = None
-                if len(a) == 3:
-                    a0, a1, a2 = (_strip_ids(canon(x)) for x in a)
-                    if a0 != "(+ address overhead)":
-                        problems.append("frame address argument is %s" % a0)
-                    m = a[1].strip()
-                    if not (m.kind == "BinaryOperator" and m.op == "-" and m.children[0].strip().cv() is not None
-                            and _strip_ids(canon(m.children[1])) == "overhead"):
-                        problems.append("frame length argument is %s" % a1)
-                    if not (std_unwrap(a[2]).kind == "DeclRefExpr" and std_unwrap(a[2]).d["d"] in idxp):
-                        problems.append("frame index argument is %s" % a2)
-                else:
-                    problems.append("slab_frame constructed with %d arguments" % len(a))
-                pa = std_unwrap(f.node(fr[0].get("pargs")[0]))
-                if _strip_ids(canon(pa)) != "address":
-                    problems.append("frame placed at %s, not at the aligned address" % canon(pa))
             fl = [n for n in news if (n.get("allocrt") or "").endswith("::freelist")]
+            if len(fr) != 1 or not fl:
+                raise AnalysisBroken("anchor vanished: slab_frame / freelist placement in _construct_slab (%d, %d)" % (len(fr), len(fl)))
+            ce = fr[0].child("init")
+            ce = ce.strip() if ce is not None else None
+            a = ce.args if ce is not None else []
+            pa = std_unwrap(f.node(fr[0].get("pargs")[0]))       # where the frame is placed
+            if pa.kind != "DeclRefExpr":
+                problems.append("frame placed at %s, not at a local holding the aligned address" % canon(pa))
+            ov = item = None
+            if len(a) != 3:
+                problems.append("slab_frame constructed with %d arguments" % len(a))
+            else:
+                a0, a1, a2 = (std_unwrap(x) for x in a)
+                # a0 = placement address + overhead
+                if a0.kind == "BinaryOperator" and a0.op == "+":
+                    l, r = std_unwrap(a0.children[0]), std_unwrap(a0.children[1])
+                    for x, y in ((l, r), (r, l)):
+                        if x.kind == "DeclRefExpr" and pa.kind == "DeclRefExpr" and x.d["d"] == pa.d["d"] and y.kind == "DeclRefExpr":
+                            ov = y.d["d"]
+                if ov is None:
+                    problems.append("frame address argument %s is not (placement address + overhead local)" % _strip_ids(canon(a0)))
+                else:
+                    ok1 = a1.kind == "BinaryOperator" and a1.op == "-" and a1.children[0].strip().cv() is not None and \
+                        std_unwrap(a1.children[1]).kind == "DeclRefExpr" and std_unwrap(a1.children[1]).d["d"] == ov
+                    if not ok1:
+                        problems.append("frame length argument %s is not (slabsize - overhead)" % _strip_ids(canon(a1)))
+                if not (a2.kind == "DeclRefExpr" and a2.d["d"] in idxp):
+                    problems.append("frame index argument is %s, not the index parameter" % _strip_ids(canon(a2)))
+            if ov is not None:
+                if ov not in inits or inits[ov].strip().cv() != 0:
+                    problems.append("overhead does not start at 0 (it must stay a multiple of the item size)")
+                for x in f.all_nodes():
+                    if x.kind in ("CompoundAssignOperator", "BinaryOperator", "UnaryOperator") and x.get("op") in ("+=", "-=", "=", "++", "--", "*="):
+                        l = x.children[0].strip()
+                        if l.kind == "DeclRefExpr" and l.d["d"] == ov:
+                            r = std_unwrap(x.children[1]) if len(x.children) > 1 else None
+                            if x.op == "+=" and r is not None and r.kind == "DeclRefExpr":
+                                item = r.d["d"] if item in (None, r.d["d"]) else item
+                            else:
+                                problems.append("overhead modified by %s at %s" % (_strip_ids(canon(x)), x.loc))
+                hdr_loop = False
+                for blk in f.blocks.values():
+                    if blk.termkind in ("WhileStmt", "ForStmt", "DoStmt") and blk.cond is not None:
+                        c = f.node(blk.cond).strip()
+                        if c.kind == "BinaryOperator" and c.op in ("<", ">", "<=", ">="):
+                            ops = [std_unwrap(x) for x in c.children]
+                            if any(o.kind == "DeclRefExpr" and o.d["d"] == ov for o in ops) and any(o.cv() is not None for o in ops):
+                                hdr_loop = True
+                if not hdr_loop:
+                    problems.append("no loop growing overhead until it covers sizeof(slab_frame)")
+                if item is None:
+                    problems.append("overhead is not grown in steps of a local item size")
+                else:
+                    ii = std_unwrap(inits[item]) if item in inits else None
+                    if not (ii is not None and ii.is_call() and ii.callee and ii.callee["n"] == "bucket_to_size" and ii.args
+                            and std_unwrap(ii.args[0]).kind == "DeclRefExpr" and std_unwrap(ii.args[0]).d["d"] in idxp):
+                        problems.append("item size is not bucket_to_size(index parameter)")
+            # the variable bound to the new frame
+            slbv = None
+            for x in f.all_nodes():
+                if x.kind == "DeclStmt":
+                    for d in x.get("decls", []):
+                        if "init" in d and f.node(d["init"]).strip().id == fr[0].id:
+                            slbv = d["d"]
             from .rules_own import for_loops
             okc = False
             for lp in for_loops(f):
                 inc = lp.node.child("inc")
-                if fl and all(lp.contains(n) for n in fl) and inc is not None:
-                    incs = _strip_ids(canon(inc))
-                    bnd = _strip_ids(lp.bound_canon() or "")
-                    where = _strip_ids(canon(f.node(fl[0].get("pargs")[0])))
-                    if incs == "(+= off item_size)" and bnd == "slb.length" and lp.op == "<" and lp.start_canon() == "0" and where == "(+ slb.address off)":
+                if all(lp.contains(n) for n in fl) and inc is not None and lp.ivar is not None:
+                    inc_ = inc.strip()
+                    step_ok = inc_.kind == "CompoundAssignOperator" and inc_.op == "+=" and std_unwrap(inc_.children[0]).kind == "DeclRefExpr" \
+                        and std_unwrap(inc_.children[0]).d["d"] == lp.ivar and std_unwrap(inc_.children[1]).kind == "DeclRefExpr" \
+                        and std_unwrap(inc_.children[1]).d["d"] == item
+                    bp = path(lp.bound) if lp.bound is not None else None
+                    bound_ok = bool(bp) and bp[-1] == "length" and slbv is not None and bp[0].endswith("#%d" % slbv) and lp.op == "<"
+                    wh = std_unwrap(f.node(fl[0].get("pargs")[0]))
+                    where_ok = False
+                    if wh.kind == "BinaryOperator" and wh.op == "+":
+                        ops = [std_unwrap(x) for x in wh.children]
+                        for x, y in ((ops[0], ops[1]), (ops[1], ops[0])):
+                            px = path(x)
+                            if px and px[-1] == "address" and slbv is not None and px[0].endswith("#%d" % slbv) and y.kind == "DeclRefExpr" and y.d["d"] == lp.ivar:
+                                where_ok = True
+                    if step_ok and bound_ok and where_ok and lp.start_canon() == "0":
                         okc = True
                     else:
-                        problems.append("carving loop: start %s, condition off %s %s, step %s, object at %s" % (lp.start_canon(), lp.op, bnd, incs, where))
+                        problems.append("carving loop: starts at %s (want 0); step by item size: %s; runs while off < frame.length: %s; "
+                                        "objects at frame.address + off: %s" % (lp.start_canon(), step_ok, bound_ok, where_ok))
             if not okc and not any("carving loop" in p for p in problems):
                 problems.append("no carving loop placing freelist nodes found")
             ctx.inst("E.carving", "%s::_construct_slab%s" % (POOL, tag), not problems, f.loc,
@@ -212,7 +239,7 @@ def check_C01(ctx, unit):
             kinds = set()
             for r in rets:
                 v = std_unwrap(r.child("val"))
-                if v.kind == "DeclRefExpr" and v.n == "object":
+                if v.kind == "DeclRefExpr" and v.get("local") and "freelist" in (v.get("t") or ""):
                     kinds.add("small")
                     # every assignment to object is slb->available
                     for x in f.all_nodes():
@@ -230,8 +257,8 @@ def check_C01(ctx, unit):
             ctx.inst("E.handed-out", "%s::allocate%s" % (POOL, tag), not problems, f.loc,
                      "; ".join(problems) if problems else "small path returns the popped list head, large path the frame's object address", f)
         for f in bn.get("get_size", []):
-            vals = sorted(_strip_ids(canon(r.child("val"))) for r in f.return_nodes() if r.child("val") is not None)
-            ok = vals == ["0", "frg::slab_pool::bucket_to_size(slb.index)", "sup.length"]
+            vals = sorted(_usable_size_shape(f, r.child("val")) for r in f.return_nodes() if r.child("val") is not None)
+            ok = vals == sorted(["0", "bucket_to_size(<frame>.index)", "<frame>.length"])
             ctx.inst("E.handed-out", "%s::get_size%s" % (POOL, tag), ok, f.loc, "returns %s" % vals, f)
         for f in bn.get("allocate", []):
             lp = [p["d"] for p in f.params()]
@@ -261,6 +288,28 @@ def check_C01(ctx, unit):
             flow.run(f, ["any"], transfer, refine)
             ctx.inst("N.min-size", "%s::allocate%s" % (POOL, tag), not bad, uses[0].loc,
                      "length is known >= 1 when the size class is computed: %s" % (not bad), f)
+
+
+def _usable_size_shape(fn, n):
+    """Shape of an expression denoting a block's usable size, independent of local names:
+    bucket_to_size(<frame>.index), <frame>.length, a constant, or the canonical text otherwise."""
+    inits = RA.local_inits(fn)
+    x = std_unwrap(n)
+    hops = 0
+    while x.kind == "DeclRefExpr" and x.get("local") and x.d["d"] in inits and not RA._reassigned(fn, x.d["d"]) and hops < 6:
+        x = std_unwrap(inits[x.d["d"]])
+        hops += 1
+    c = x.cv()
+    if c is not None and x.kind not in ("DeclRefExpr", "MemberExpr"):
+        return str(c)
+    if x.is_call() and x.callee and x.callee["n"] == "bucket_to_size" and x.args:
+        p = path(x.args[0])
+        if p and p[-1] == "index" and len(p) == 2:
+            return "bucket_to_size(<frame>.index)"
+    p = path(x)
+    if p and len(p) == 2 and p[-1] == "length" and x.kind == "MemberExpr":
+        return "<frame>.length"
+    return _strip_ids(canon(x))
 
 
 def _const_offset(n):
@@ -375,11 +424,11 @@ def check_C02(ctx, unit):
                     for x in f.all_nodes():
                         if x.kind == "BinaryOperator" and x.op == "=" and std_unwrap(x.children[0]).kind == "DeclRefExpr" \
                                 and std_unwrap(x.children[0]).d["d"] == cnt.d["d"]:
-                            defs.append(_strip_ids(canon(x.children[1])))
+                            defs.append(_usable_size_shape(f, x.children[1]))
                     init = RA.local_inits(f).get(cnt.d["d"])
                     if init is not None:
-                        defs.append(_strip_ids(canon(init)))
-                    okd = set(defs) <= {"frg::slab_pool::bucket_to_size(slb.index)", "sup.length"} and defs
+                        defs.append(_usable_size_shape(f, init))
+                    okd = set(defs) <= {"bucket_to_size(<frame>.index)", "<frame>.length"} and defs
                     if not okd:
                         problems.append("copy length takes values %s" % sorted(set(defs)))
                 else:
@@ -409,7 +458,7 @@ def check_C02(ctx, unit):
                             c = cond.strip()
                             if c.kind == "BinaryOperator" and c.op == ">" and truth is False and std_unwrap(c.children[0]).kind == "DeclRefExpr" \
                                     and std_unwrap(c.children[0]).d["d"] == ns and \
-                                    _cp(f, c.children[1]) in ("frg::slab_pool::bucket_to_size(slb.index)", "sup.length"):
+                                    _usable_size_shape(f, c.children[1]) in ("bucket_to_size(<frame>.index)", "<frame>.length"):
                                 fits = True
                         if not fits:
                             bad.append(r.loc)
@@ -665,12 +714,15 @@ def check_C03(ctx, unit):
                              ", then the link word is written" if name == "free_in_slab_" else "", ok), f)
         for f in bn.get("allocate", []):
             rets = [r for r in f.return_nodes() if r.child("val") is not None and std_unwrap(r.child("val")).kind == "DeclRefExpr"
-                    and std_unwrap(r.child("val")).n == "object"]
+                    and std_unwrap(r.child("val")).get("local") and "freelist" in (std_unwrap(r.child("val")).get("t") or "")]
             ok = bool(rets)
+            lenp = f.params()[0]["d"]
             for r in rets:
-                po = [p for p in pcalls(f, "poison") if arg0(p) == "object" and f.dominates(p.id, r.id)]
-                up = [u for u in pcalls(f, "unpoison") if arg0(u) == "object" and f.dominates(u.id, r.id)
-                      and len(u.args) > 1 and _strip_ids(canon(u.args[1])) == "length"]
+                ov_ = std_unwrap(r.child("val")).d["d"]
+                isv = lambda a: std_unwrap(a).kind == "DeclRefExpr" and std_unwrap(a).d["d"] == ov_
+                po = [p for p in pcalls(f, "poison") if p.args and isv(p.args[0]) and f.dominates(p.id, r.id)]
+                up = [u for u in pcalls(f, "unpoison") if u.args and isv(u.args[0]) and f.dominates(u.id, r.id)
+                      and len(u.args) > 1 and std_unwrap(u.args[1]).kind == "DeclRefExpr" and std_unwrap(u.args[1]).d["d"] == lenp]
                 ok = ok and bool(po) and bool(up) and f.dominates(po[0].id, up[0].id)
             ctx.inst("Z.poison-order", "%s::allocate%s" % (POOL, tag), ok, f.loc,
                      "small path: poison(link word) then unpoison(object, length) before returning: %s" % ok, f)
